@@ -2038,25 +2038,20 @@ func (p *parser) projection(prec int) (Node, error) {
 				Filter: filter,
 			}
 		case lexer.ObjectWildcardToken:
-			if p.curr.Type == lexer.EndToken {
-				if err := p.advance(); err != nil {
-					return nil, err
-				}
+			if err := p.advance(); err != nil {
+				return nil, err
+			}
 
+			right, err := p.projection(projectionPrecedence)
+			if err != nil {
+				return nil, err
+			}
+
+			if right == nil {
 				node = &ObjectValuesNode{
 					Child: node,
 				}
 			} else {
-				p.setCurrent(lexer.Token{
-					Type:  lexer.AsteriskToken,
-					Value: p.curr.Value[1:],
-				})
-
-				right, err := p.expression(newPrec)
-				if err != nil {
-					return nil, err
-				}
-
 				node = &ProjectObjectNode{
 					Left:  node,
 					Right: right,
